@@ -21,6 +21,7 @@ def run(ctx):
     ctx.do(S.rule_sh1)
     ctx.do(S.rule_sh2)
     ctx.do(S.rule_sh3)
+    ctx.do(S.rule_sh5)
     ctx.do(S.rule_ax1, [CORE, "geometry_tools/hyperbolic.py", PROJ])
     ctx.do(P.rule_s1, ops=[(PROJ, "ProjectiveObject.reshape"),
                         (PROJ, "ProjectiveObject.flatten_to_unit"),
